@@ -9,6 +9,9 @@ mod filt;
 mod gen_bin;
 mod gen_pred;
 mod gen_sent;
+mod gen_train;
+mod train;
+mod train_tags;
 mod model;
 mod pred;
 mod sent;
@@ -28,8 +31,10 @@ fn main() {
             let out = std::io::stdout();
             let mut out = std::io::BufWriter::new(out.lock());
             let thorough = tier == "thorough";
+            util::silence_panics();
             match family.as_str() {
                 "C01" => gen_pred::gen_c01(&mut out, thorough, seed),
+                "C09" | "C10" | "C11" | "C12" => gen_train::gen(&mut out, family, thorough, seed),
                 "C14" => gen_pred::gen_c14(&mut out, thorough, seed),
                 "C13" => gen_pred::gen_c13(&mut out, thorough, seed),
                 "C15" => gen_sent::gen_c15(&mut out, thorough, seed),
@@ -50,13 +55,22 @@ fn main() {
             if let Some(i) = args.iter().position(|a| a == "--oracle") {
                 oracle_out = Some(std::fs::File::create(&args[i + 1]).expect("oracle file"));
             }
+            // cases whose model-side input depends on this run (the learner's output): `lineno\tline`
+            let mut effective_out: Option<std::fs::File> = None;
+            if let Some(i) = args.iter().position(|a| a == "--effective") {
+                effective_out = Some(std::fs::File::create(&args[i + 1]).expect("effective file"));
+            }
             let stdin = std::io::stdin();
             let out = std::io::stdout();
             let mut out = std::io::BufWriter::new(out.lock());
             for (lineno, line) in stdin.lock().lines().enumerate() {
                 let line = line.unwrap();
                 let mut fails: Vec<(String, String)> = vec![];
-                let resp = run_case(line.trim(), &mut fails);
+                let mut effective: Option<String> = None;
+                let resp = run_case(line.trim(), &mut fails, &mut effective);
+                if let (Some(f), Some(e)) = (effective_out.as_mut(), effective) {
+                    writeln!(f, "{}\t{}", lineno + 1, e).unwrap();
+                }
                 writeln!(out, "{resp}").unwrap();
                 if let Some(f) = oracle_out.as_mut() {
                     for (prop, msg) in fails {
@@ -82,7 +96,7 @@ fn main() {
 }
 
 /// executes one case line against the real code; pushes `(property, message)` for every oracle failure
-fn run_case(line: &str, fails: &mut Vec<(String, String)>) -> String {
+fn run_case(line: &str, fails: &mut Vec<(String, String)>, effective: &mut Option<String>) -> String {
     let toks: Vec<&str> = line.split(' ').collect();
     match toks.as_slice() {
         ["S", ops] => sent::run_sent(ops, "", fails),
@@ -91,6 +105,7 @@ fn run_case(line: &str, fails: &mut Vec<(String, String)>) -> String {
         ["H", cfg, preds, ops, oracle] => pred::run_h(cfg, preds, ops, oracle, fails),
         [k, ..] if matches!(*k, "B" | "RS" | "RX" | "RF" | "WF") => bin::run(&toks, fails),
         ["E", ..] => pred::run_e(&toks, fails),
+        ["TR", ..] => train::run(&toks, fails, effective),
         _ => "bad-case".into(),
     }
 }
